@@ -25,5 +25,24 @@ r2txt = ""
 if r2:
     r2txt = open(os.path.join(V, "tools", "design_round2.template.md")).read().replace("@@TABLE2@@", r2) if os.path.exists(os.path.join(V, "tools", "design_round2.template.md")) else ""
 sec = sec.replace("@@ROUND2@@", r2txt)
+
+
+def rows3():
+    out = []
+    for d in sorted(glob.glob(os.path.join(V, "seeded", "R3-*", "meta.json"))):
+        m = json.load(open(d))
+        f = lambda xs: ", ".join(xs) or "— (not detected)"  # noqa
+        t = re.sub(r'^[AB]\s*[-—:]+\s*', '', m["change"]).strip()
+        out.append(f"| {m['id']} | {t[:110]} | {', '.join(os.path.basename(x) for x in m['files_touched'])} | "
+                   f"{f(m.get('detected_by_first_run', []))} | {f(m['detected_by'])} |")
+    return "\n".join(out)
+
+
+r3 = rows3()
+r3txt = open(os.path.join(V, "tools", "design_round3.template.md")).read().replace("@@TABLE3@@", r3) if r3 else ""
+sec = sec.replace("@@ROUND3@@", r3txt)
+s16 = os.path.join(V, "tools", "design_section_16.template.md")
+if os.path.exists(s16):
+    sec = sec.rstrip() + "\n\n" + open(s16).read()
 open(p, "w").write(s.rstrip() + "\n" + sec)
 print("DESIGN.md:", len((s + sec).splitlines()), "lines")
